@@ -526,4 +526,331 @@ theorem parseName_good (d : List Nat) (p : P) (hi : p.Inv d) : GoodR d p.len (pa
   intro q hq; cases hq
 
 
+/-! ### the flat (compression-free) encoding parses back -/
+
+theorem parseU8_at' (d : List Nat) (p : P) (b : Nat) (B : List Nat) (h : d.drop p.pos = b :: B)
+    (hfit : p.pos + 1 ≤ p.len) (hd : p.len ≤ d.length) :
+    parseU8 d p = .ok (b, ⟨p.pos + 1, p.len⟩) ∧ d.drop (p.pos + 1) = B := by
+  cases p with | mk pos len => exact parseU8_at d pos len b B h hfit hd
+
+theorem take_at' (d : List Nat) (p : P) (A B : List Nat) (h : d.drop p.pos = A ++ B)
+    (hfit : p.pos + A.length ≤ p.len) (hd : p.len ≤ d.length) :
+    take d p A.length = .ok (A, ⟨p.pos + A.length, p.len⟩) ∧ d.drop (p.pos + A.length) = B := by
+  cases p with | mk pos len => exact take_at d pos len A B h hfit hd
+
+/-- a length octet 0..63 at the cursor is a normal label head -/
+theorem parseLabelType_normal (d : List Nat) (p : P) (n : Nat) (B : List Nat) (hn : n ≤ 63) (h : d.drop p.pos = n :: B)
+    (hfit : p.pos + 1 ≤ p.len) (hd : p.len ≤ d.length) :
+    parseLabelType d p = .ok (.normal n, ⟨p.pos + 1, p.len⟩) := by
+  unfold parseLabelType
+  rw [(parseU8_at' d p n B h hfit hd).1]
+  simp only [bind, Except.bind]
+  rw [if_pos hn]; rfl
+
+theorem encName_nil : encName [] = [0] := rfl
+theorem encName_cons (l : List Nat) (ls : List (List Nat)) : encName (l :: ls) = (l.length % 256 :: l) ++ encName ls := by
+  simp [encName, encLabel]
+
+theorem encName_length_pos (ls : List (List Nat)) : 1 ≤ (encName ls).length := by
+  simp [encName]
+
+theorem encName_length_cons (l : List Nat) (ls : List (List Nat)) :
+    (encName (l :: ls)).length = l.length + 1 + (encName ls).length := by
+  rw [encName_cons]; simp; omega
+
+/-- the label loop on the flat encoding of `labels`, from any loop state -/
+theorem nameRun_flat (d : List Nat) : ∀ (labels : List (List Nat)) (f : Nat) (s : NS) (B : List Nat),
+    (∀ l ∈ labels, 1 ≤ l.length ∧ l.length ≤ 63) →
+    d.drop s.p.pos = encName labels ++ B →
+    s.p.pos + (encName labels).length ≤ s.p.len → s.p.len ≤ d.length →
+    s.nameLen + (encName labels).length ≤ 255 →
+    labels.length < f →
+    nameRun f d s = .ok ({ labels := s.acc.reverse ++ labels, nameLen := s.nameLen + (encName labels).length,
+                           compressed := s.compressed },
+                         s.outer.getD ⟨s.p.pos + (encName labels).length, s.p.len⟩) := by
+  intro labels
+  induction labels with
+  | nil =>
+    intro f s B _ hdrop hfit hd _ hf
+    obtain ⟨f, rfl⟩ : ∃ k, f = k + 1 := ⟨f - 1, by omega⟩
+    rw [encName_nil] at hdrop hfit
+    simp only [List.length_cons, List.length_nil] at hfit
+    unfold nameRun
+    rw [nameStep_eq, parseLabelType_normal d s.p 0 B (by omega) hdrop (by omega) hd]
+    simp [encName_nil]
+  | cons l ls ih =>
+    intro f s B hl hdrop hfit hd hlen hf
+    obtain ⟨f, rfl⟩ : ∃ k, f = k + 1 := ⟨f - 1, by simp at hf; omega⟩
+    have hl1 := hl l (by simp)
+    have hmod : l.length % 256 = l.length := by omega
+    rw [encName_length_cons] at hfit hlen
+    have hpos := encName_length_pos ls
+    rw [encName_cons, hmod] at hdrop
+    have hdrop1 : d.drop s.p.pos = l.length :: (l ++ (encName ls ++ B)) := by
+      rw [hdrop]; simp
+    have hlt := parseLabelType_normal d s.p l.length _ hl1.2 hdrop1 (by omega) hd
+    have hd1 : d.drop (s.p.pos + 1) = l ++ (encName ls ++ B) := (parseU8_at' d s.p _ _ hdrop1 (by omega) hd).2
+    have htk := take_at' d ⟨s.p.pos + 1, s.p.len⟩ l (encName ls ++ B) hd1 (by simp only; omega) hd
+    simp only at htk
+    unfold nameRun
+    rw [nameStep_eq, hlt]
+    simp only
+    rw [if_neg (by omega), htk.1]
+    simp only
+    rw [if_neg (by omega)]
+    simp only
+    have := ih f { s with p := ⟨s.p.pos + 1 + l.length, s.p.len⟩, nameLen := s.nameLen + l.length + 1, acc := l :: s.acc } B
+      (fun x hx => hl x (by simp [hx])) htk.2 (by simp only; omega) hd (by simp only; omega) (by simp at hf; omega)
+    rw [this]
+    simp only [List.reverse_cons, List.append_assoc, List.singleton_append, encName_length_cons]
+    congr 2
+    · congr 1; omega
+    · congr 2; omega
+
+/-- **name round trip**: a name of 1..63-octet labels that is at most 255 octets on the wire, encoded
+without compression at the cursor, is parsed back to exactly its labels; the parser ends right behind it -/
+theorem parseName_flat (d : List Nat) (p : P) (labels : List (List Nat)) (B : List Nat) (hwf : NameWF labels)
+    (hdrop : d.drop p.pos = encName labels ++ B) (hfit : p.pos + (encName labels).length ≤ p.len) (hd : p.len ≤ d.length) :
+    parseName d p = .ok ({ labels := labels, nameLen := (encName labels).length, compressed := false },
+                         ⟨p.pos + (encName labels).length, p.len⟩) := by
+  unfold parseName
+  have hlen : labels.length < nameFuel p := by
+    have h1 : labels.length ≤ (encName labels).length := by
+      clear hwf hdrop hfit
+      induction labels with
+      | nil => simp
+      | cons l ls ih => rw [encName_length_cons]; simp; omega
+    unfold nameFuel; omega
+  have := nameRun_flat d labels (nameFuel p) { p := p, nameLen := 0, acc := [], compressed := false, outer := none } B
+    hwf.1 hdrop hfit hd (by simp only; have := hwf.2; omega) hlen
+  rw [this]
+  simp
+
+
+/-! ### a run of flat labels, then anything: the state after the labels -/
+
+/-- octets of a run of labels (no root label) -/
+def encLabels (labels : List (List Nat)) : List Nat := labels.flatMap encLabel
+
+theorem encLabels_cons (l : List Nat) (ls : List (List Nat)) : encLabels (l :: ls) = (l.length % 256 :: l) ++ encLabels ls := by
+  simp [encLabels, encLabel]
+
+theorem encName_eq (ls : List (List Nat)) : encName ls = encLabels ls ++ [0] := rfl
+
+theorem encLabels_length_cons (l : List Nat) (ls : List (List Nat)) :
+    (encLabels (l :: ls)).length = l.length + 1 + (encLabels ls).length := by
+  rw [encLabels_cons]; simp; omega
+
+theorem length_le_encLabels (ls : List (List Nat)) : ls.length ≤ (encLabels ls).length := by
+  induction ls with
+  | nil => simp [encLabels]
+  | cons l ls ih => rw [encLabels_length_cons]; simp; omega
+
+/-- the loop state after walking over `labels` -/
+def NS.after (s : NS) (labels : List (List Nat)) : NS :=
+  { s with p := ⟨s.p.pos + (encLabels labels).length, s.p.len⟩, nameLen := s.nameLen + (encLabels labels).length,
+           acc := labels.reverse ++ s.acc }
+
+/-- walking over a run of well-formed labels that keeps the name below 255 octets costs one turn per label -/
+theorem nameRun_labels (d : List Nat) : ∀ (labels : List (List Nat)) (f : Nat) (s : NS) (B : List Nat),
+    (∀ l ∈ labels, 1 ≤ l.length ∧ l.length ≤ 63) →
+    d.drop s.p.pos = encLabels labels ++ B →
+    s.p.pos + (encLabels labels).length ≤ s.p.len → s.p.len ≤ d.length →
+    s.nameLen + (encLabels labels).length < 255 →
+    nameRun (f + labels.length) d s = nameRun f d (s.after labels) ∧ d.drop (s.p.pos + (encLabels labels).length) = B := by
+  intro labels
+  induction labels with
+  | nil =>
+    intro f s B _ hdrop _ _ _
+    refine ⟨?_, by simpa [encLabels] using hdrop⟩
+    cases s with | mk p nl acc c o => cases p with | mk pos len => simp [NS.after, encLabels]
+  | cons l ls ih =>
+    intro f s B hl hdrop hfit hd hlen
+    have hl1 := hl l (by simp)
+    have hmod : l.length % 256 = l.length := by omega
+    rw [encLabels_length_cons] at hfit hlen
+    rw [encLabels_cons, hmod] at hdrop
+    have hdrop1 : d.drop s.p.pos = l.length :: (l ++ (encLabels ls ++ B)) := by
+      rw [hdrop]; simp
+    have hlt := parseLabelType_normal d s.p l.length _ hl1.2 hdrop1 (by omega) hd
+    have hd1 : d.drop (s.p.pos + 1) = l ++ (encLabels ls ++ B) := (parseU8_at' d s.p _ _ hdrop1 (by omega) hd).2
+    have htk := take_at' d ⟨s.p.pos + 1, s.p.len⟩ l (encLabels ls ++ B) hd1 (by simp only; omega) hd
+    simp only at htk
+    have hstep : nameRun (f + (l :: ls).length) d s
+        = nameRun (f + ls.length) d { s with p := ⟨s.p.pos + 1 + l.length, s.p.len⟩, nameLen := s.nameLen + l.length + 1, acc := l :: s.acc } := by
+      rw [show f + (l :: ls).length = (f + ls.length) + 1 by simp; omega]
+      conv => lhs; unfold nameRun
+      rw [nameStep_eq, hlt]
+      simp only
+      rw [if_neg (by omega), htk.1]
+      simp only
+      rw [if_neg (by omega)]
+    have := ih f { s with p := ⟨s.p.pos + 1 + l.length, s.p.len⟩, nameLen := s.nameLen + l.length + 1, acc := l :: s.acc } B
+      (fun x hx => hl x (by simp [hx])) htk.2 (by simp only; omega) hd (by simp only; omega)
+    rw [hstep, this.1]
+    refine ⟨?_, ?_⟩
+    · congr 1
+      simp only [NS.after, encLabels_length_cons, List.reverse_cons, List.append_assoc, List.singleton_append]
+      congr 1
+      · congr 1; omega
+      · omega
+    · have h2 := this.2
+      simp only at h2
+      rw [encLabels_length_cons, ← h2]; congr 1; omega
+
+
+/-- the loop state `parseName` starts from -/
+def NS.init (p : P) : NS := { p := p, nameLen := 0, acc := [], compressed := false, outer := none }
+
+theorem parseName_eq_run (d : List Nat) (p : P) : parseName d p = nameRun (nameFuel p) d (NS.init p) := rfl
+
+/-- `parseName` over a run of flat labels `pre` followed by anything: one turn of budget left at least, and
+the loop state is "after `pre`" -/
+theorem parseName_after (d : List Nat) (p : P) (pre : List (List Nat)) (B : List Nat)
+    (hpre : ∀ l ∈ pre, 1 ≤ l.length ∧ l.length ≤ 63) (hdrop : d.drop p.pos = encLabels pre ++ B)
+    (hfit : p.pos + (encLabels pre).length ≤ p.len) (hd : p.len ≤ d.length) (hlen : (encLabels pre).length < 255) :
+    ∃ k, parseName d p = nameRun (k + 1) d ((NS.init p).after pre) ∧ d.drop (p.pos + (encLabels pre).length) = B ∧
+      k + 1 + pre.length = nameFuel p := by
+  have h1 := length_le_encLabels pre
+  obtain ⟨k, hf⟩ : ∃ k, nameFuel p = k + 1 + pre.length := ⟨nameFuel p - pre.length - 1, by unfold nameFuel; omega⟩
+  refine ⟨k, ?_⟩
+  rw [parseName_eq_run, hf]
+  have := nameRun_labels d pre (k + 1) (NS.init p) B hpre hdrop hfit hd (by simp only [NS.init]; omega)
+  exact ⟨this.1, this.2, rfl⟩
+
+theorem parseLabelType_eof (d : List Nat) (p : P) (h : p.pos = p.len) (hd : p.len ≤ d.length) :
+    parseLabelType d p = .error .shortInput := by
+  have := take_spec d p 1 ⟨by omega, hd⟩
+  rcases this with ⟨_, h1⟩ | ⟨h2, _⟩
+  · unfold parseLabelType parseU8; rw [h1]; rfl
+  · omega
+
+theorem parseLabelType_bad (d : List Nat) (p : P) (t : Nat) (B : List Nat) (h1 : 64 ≤ t) (h2 : t < 192)
+    (h : d.drop p.pos = t :: B) (hfit : p.pos + 1 ≤ p.len) (hd : p.len ≤ d.length) :
+    parseLabelType d p = .error .badLabel := by
+  unfold parseLabelType
+  rw [(parseU8_at' d p t B h hfit hd).1]
+  simp only [bind, Except.bind]
+  rw [if_neg (by omega), if_neg (by omega)]; rfl
+
+theorem parseLabelType_ptr (d : List Nat) (p : P) (c lo : Nat) (B : List Nat) (h1 : 192 ≤ c)
+    (h : d.drop p.pos = c :: lo :: B) (hfit : p.pos + 2 ≤ p.len) (hd : p.len ≤ d.length) :
+    parseLabelType d p = .ok (.ptr (lo + c % 64 * 256), ⟨p.pos + 2, p.len⟩) := by
+  unfold parseLabelType
+  have a := parseU8_at' d p c (lo :: B) h (by omega) hd
+  have b := parseU8_at' d ⟨p.pos + 1, p.len⟩ lo B a.2 (by simp only; omega) hd
+  rw [a.1]
+  simp only [bind, Except.bind]
+  rw [if_neg (by omega), if_pos h1, b.1]; rfl
+
+/-! ### refusal clauses of `ParsedName::parse` (each after an arbitrary run `pre` of well-formed labels) -/
+
+/-- a length octet 0x40..0xBF is refused ("invalid label type"): labels longer than 63 octets do not exist -/
+theorem parseName_rejects_bad_label (d : List Nat) (p : P) (pre : List (List Nat)) (t : Nat) (B : List Nat)
+    (hpre : ∀ l ∈ pre, 1 ≤ l.length ∧ l.length ≤ 63) (ht1 : 64 ≤ t) (ht2 : t < 192)
+    (hdrop : d.drop p.pos = encLabels pre ++ t :: B)
+    (hfit : p.pos + (encLabels pre).length + 1 ≤ p.len) (hd : p.len ≤ d.length) (hlen : (encLabels pre).length < 255) :
+    parseName d p = .error .badLabel := by
+  obtain ⟨k, hk, hB, _⟩ := parseName_after d p pre (t :: B) hpre hdrop (by omega) hd hlen
+  rw [hk]; unfold nameRun
+  rw [nameStep_eq, parseLabelType_bad d ((NS.init p).after pre).p t B ht1 ht2 hB (by simp only [NS.after, NS.init]; omega) hd]
+
+/-- a name that is cut off at a label boundary (no root label before the parser's limit) is refused -/
+theorem parseName_rejects_truncated (d : List Nat) (p : P) (pre : List (List Nat)) (B : List Nat)
+    (hpre : ∀ l ∈ pre, 1 ≤ l.length ∧ l.length ≤ 63) (hdrop : d.drop p.pos = encLabels pre ++ B)
+    (hfit : p.pos + (encLabels pre).length = p.len) (hd : p.len ≤ d.length) (hlen : (encLabels pre).length < 255) :
+    parseName d p = .error .shortInput := by
+  obtain ⟨k, hk, _, _⟩ := parseName_after d p pre B hpre hdrop (by omega) hd hlen
+  rw [hk]; unfold nameRun
+  rw [nameStep_eq, parseLabelType_eof d ((NS.init p).after pre).p (by simp only [NS.after, NS.init]; omega) hd]
+
+/-- a name that is cut off inside a label is refused -/
+theorem parseName_rejects_truncated_label (d : List Nat) (p : P) (pre : List (List Nat)) (n : Nat) (B : List Nat)
+    (hpre : ∀ l ∈ pre, 1 ≤ l.length ∧ l.length ≤ 63) (hn1 : 1 ≤ n) (hn2 : n ≤ 63)
+    (hdrop : d.drop p.pos = encLabels pre ++ n :: B)
+    (hfit : p.pos + (encLabels pre).length + 1 ≤ p.len) (hcut : p.len < p.pos + (encLabels pre).length + 1 + n)
+    (hd : p.len ≤ d.length) (hlen : (encLabels pre).length < 255) :
+    parseName d p = .error .shortInput := by
+  obtain ⟨k, hk, hB, _⟩ := parseName_after d p pre (n :: B) hpre hdrop (by omega) hd hlen
+  rw [hk]; unfold nameRun
+  rw [nameStep_eq, parseLabelType_normal d ((NS.init p).after pre).p n B hn2 hB (by simp only [NS.after, NS.init]; omega) hd]
+  simp only
+  rw [if_neg (by omega)]
+  have := take_spec d ⟨p.pos + (encLabels pre).length + 1, p.len⟩ n ⟨by simp only; omega, hd⟩
+  rcases this with ⟨_, h1⟩ | ⟨h2, _⟩
+  · simp only [NS.after, NS.init]; rw [h1]
+  · simp only at h2; omega
+
+/-- a compression pointer that does not point strictly before itself (self reference, forward pointer,
+pointer past the end) is refused: this is what makes pointer loops impossible -/
+theorem parseName_rejects_forward_pointer (d : List Nat) (p : P) (pre : List (List Nat)) (c lo : Nat) (B : List Nat)
+    (hpre : ∀ l ∈ pre, 1 ≤ l.length ∧ l.length ≤ 63) (hc : 192 ≤ c)
+    (hdrop : d.drop p.pos = encLabels pre ++ c :: lo :: B)
+    (hfit : p.pos + (encLabels pre).length + 2 ≤ p.len) (hd : p.len ≤ d.length) (hlen : (encLabels pre).length < 255)
+    (hfwd : p.pos + (encLabels pre).length ≤ lo + c % 64 * 256) :
+    parseName d p = .error .compression := by
+  obtain ⟨k, hk, hB, _⟩ := parseName_after d p pre (c :: lo :: B) hpre hdrop (by omega) hd hlen
+  rw [hk]; unfold nameRun
+  rw [nameStep_eq, parseLabelType_ptr d ((NS.init p).after pre).p c lo B hc hB (by simp only [NS.after, NS.init]; omega) hd]
+  simp only [NS.after, NS.init]
+  have e1 : ¬ (p.pos + (encLabels pre).length + 2 < 2) := by omega
+  have e2 : lo + c % 64 * 256 ≥ p.pos + (encLabels pre).length + 2 - 2 := by omega
+  simp only [e1, e2, if_true, if_false]
+
+/-- a name that would exceed 255 octets is refused as soon as the label that crosses the limit is complete -/
+theorem parseName_rejects_long (d : List Nat) (p : P) (pre : List (List Nat)) (l B : List Nat)
+    (hpre : ∀ l ∈ pre, 1 ≤ l.length ∧ l.length ≤ 63) (hl1 : 1 ≤ l.length) (hl2 : l.length ≤ 63)
+    (hdrop : d.drop p.pos = encLabels pre ++ l.length :: (l ++ B))
+    (hfit : p.pos + (encLabels pre).length + 1 + l.length ≤ p.len) (hd : p.len ≤ d.length)
+    (hlen : (encLabels pre).length < 255) (hlong : 255 ≤ (encLabels pre).length + l.length + 1) :
+    parseName d p = .error .longName := by
+  obtain ⟨k, hk, hB, _⟩ := parseName_after d p pre (l.length :: (l ++ B)) hpre hdrop (by omega) hd hlen
+  rw [hk]; unfold nameRun
+  rw [nameStep_eq, parseLabelType_normal d ((NS.init p).after pre).p l.length (l ++ B) hl2 hB (by simp only [NS.after, NS.init]; omega) hd]
+  simp only
+  rw [if_neg (by omega)]
+  have hd1 := (parseU8_at' d ⟨p.pos + (encLabels pre).length, p.len⟩ _ _ hB (by simp only; omega) hd).2
+  have htk := take_at' d ⟨p.pos + (encLabels pre).length + 1, p.len⟩ l B hd1 (by simp only; omega) hd
+  simp only [NS.after, NS.init]
+  rw [htk.1]
+  have e1 : 0 + (encLabels pre).length + l.length + 1 ≥ 255 := by omega
+  simp only [e1, if_true]
+
+/-- **compressed name round trip** (suffix compression, what other responders send): labels followed by a
+pointer to an earlier, flat name parse to the concatenation; the caller's parser ends behind the pointer -/
+theorem parseName_compressed (d : List Nat) (p : P) (pre suf : List (List Nat)) (c lo : Nat) (B B' : List Nat)
+    (hpre : ∀ l ∈ pre, 1 ≤ l.length ∧ l.length ≤ 63) (hsuf : ∀ l ∈ suf, 1 ≤ l.length ∧ l.length ≤ 63) (hc : 192 ≤ c)
+    (hdrop : d.drop p.pos = encLabels pre ++ c :: lo :: B)
+    (hfit : p.pos + (encLabels pre).length + 2 ≤ p.len) (hd : p.len ≤ d.length)
+    (hback : lo + c % 64 * 256 < p.pos + (encLabels pre).length)
+    (hsufdrop : d.drop (lo + c % 64 * 256) = encName suf ++ B')
+    (hsuffit : lo + c % 64 * 256 + (encName suf).length ≤ p.len)
+    (hlen : (encLabels pre).length + (encName suf).length ≤ 255) :
+    parseName d p = .ok ({ labels := pre ++ suf, nameLen := (encLabels pre).length + (encName suf).length,
+                           compressed := decide ((encLabels pre).length ≠ 0) },
+                         ⟨p.pos + (encLabels pre).length + 2, p.len⟩) := by
+  have hpos := encName_length_pos suf
+  obtain ⟨k, hk, hB, hkf⟩ := parseName_after d p pre (c :: lo :: B) hpre hdrop (by omega) hd (by omega)
+  rw [hk]; unfold nameRun
+  rw [nameStep_eq, parseLabelType_ptr d ((NS.init p).after pre).p c lo B hc hB (by simp only [NS.after, NS.init]; omega) hd]
+  simp only [NS.after, NS.init]
+  have e1 : ¬ (p.pos + (encLabels pre).length + 2 < 2) := by omega
+  have e2 : ¬ (lo + c % 64 * 256 ≥ p.pos + (encLabels pre).length + 2 - 2) := by omega
+  have e3 : ¬ (lo + c % 64 * 256 > p.len) := by omega
+  simp only [e1, e2, e3, if_false]
+  have hsl : suf.length < k := by
+    have h1 : suf.length ≤ (encName suf).length := by
+      rw [encName_eq]; have := length_le_encLabels suf; simp; omega
+    have h2 := length_le_encLabels pre
+    unfold nameFuel at hkf
+    omega
+  have := nameRun_flat d suf k
+    { p := ⟨lo + c % 64 * 256, p.len⟩, nameLen := 0 + (encLabels pre).length, acc := pre.reverse ++ [],
+      compressed := decide (0 + (encLabels pre).length ≠ 0),
+      outer := some ((none : Option P).getD ⟨p.pos + (encLabels pre).length + 2, p.len⟩) } B'
+    hsuf hsufdrop (by simp only; omega) hd (by simp only; omega) hsl
+  refine this.trans ?_
+  simp
+
+
 end Codec.Mdns
